@@ -73,6 +73,8 @@ func runC12(c *Ctx) {
 	}
 	c12IndexRemap(c, pk)
 	c12IndexValueRemapped(c, pk)
+	c12ReadAfterInPlace(c, pk)
+	c12AnyURLLastSlash(c, pk)
 	batchKeyRule(c, "BATCH-KEY")
 	c12PathIndexPositional(c, pk)
 	info := pk.TypesInfo
